@@ -42,7 +42,7 @@ theorem tplCreatePg : Facts.getTpl "CreateTableMigration" "postgres" false =
 /-- a one-piece template wrapped in `apply` -/
 theorem tpl_applied (g : Globals) (m : String) (T : String) (h : Facts.getTpl m g.dialect.name false = ⟨true, [.lit T]⟩) :
     g.tpl m = if g.lower then toLowerAscii T else T := by
-  simp [Globals.tpl, h, String.join]
+  simp [Globals.tpl, rawTpl, h, String.join]
 
 theorem down_nonzero (d : Dialect) (lower : Bool) (table : String) (ver : Int) (h : ver ≠ 0) :
     (bookDown { dialect := d, lower := lower, table := table } ver).toList = deleteRow lower table.toList := by
